@@ -106,6 +106,11 @@ def _main(mod, argv):
     res.cov["theorems"] = {m: t for m, t in thms.items()}
     if not pr["ok"]:
         broken += ["proof obligation: " + p for p in pr["problems"]]
+    elif tier == "thorough" and not a.replay:
+        rc = C.recheck_oleans(list(thms.keys()))
+        res.cov["checker_cmd"] += " && lake env leanchecker <each theorem module>"
+        res.cov["leanchecker_modules"] = len(thms)
+        broken += ["proof obligation: " + p for p in rc]
     if hasattr(mod, "extra_obligations") and model_ok:
         for (name, ok, detail) in mod.extra_obligations(ctx):
             res.cov["obligations"] += 1
